@@ -72,6 +72,7 @@ def run(tier, replay=None):
     return ck.finish(cov, assumptions=[
         "model Views/Model.v is hand-written from expr/result_type.go (Project, the seen memo), dsl/result_type.go (View/buildView), codegen/service (projected types, new<T>View<V>, new<T><V>, Validate<T>View<V>, NewViewed<T>/New<T>) and the HTTP response encoder/decoder templates; tied by evaluating iproject/unfold, server_respond and client_decode inside Coq on every case the real code ran",
         "attribute types are leaves, result types and CollectionOf(result type); plain user types, arrays and maps that contain result types are not modelled (projectRecursive's object/array branches)",
+        "result attributes that a response maps to a header or a cookie are read back from there and compared as part of the rendered value (which attributes cross the wire, not where: the transport encoding of headers / cookies is C02/C03's); such attributes get transport-safe values",
         "values: leaves are opaque (compared by identity of their JSON text); validations other than required-ness are not modelled; a non-pointer Go field holding the zero value is read as unset (generated values never hold zero leaves)",
         "designs whose generated code does not compile (C01's findings: a method returning a self-reaching result type, a fixed view listing a collection whose nested view has no required attribute) are left out of tier B",
         "an undefined view name RETURNED BY THE SERVICE is the known finding server-undefined-view-*; the main streams return only defined names and \"\""],
